@@ -224,7 +224,7 @@ def one(ctx, core, shape, method, n, order, full_output, rule_as=None):
     # control dependence
     for (text, where_p), tags in ex.control_predicates().items():
         cols = {t for t in tags if t[0] == 'x'}
-        fn_q, kind = ex.site_info.get((text, where_p), ('', 'other'))
+        fn_q, kind = ex.site_info.get((text, where_p), ('', 'other'))[:2]
         if len(cols) > 1 and control_exception(fn_q, kind) is None:
             rep.violation(rid('R-COLSEP'), construct, where_p, {'predicate': text, 'in_function': fn_q, 'kind': kind,
                                                                 'depends_on_elements': len(cols)},
